@@ -511,9 +511,12 @@ def _guard_only_helper(ctx, g, call, arg):
         if not (isinstance(st, ast.If) and _in(x, st.test) and not st.orelse and any(isinstance(b, ast.Raise) for b in st.body)
                 and all(isinstance(b, ast.Raise) or _is_log(b) for b in st.body)):
             return False
-    # nothing else happens in the helper: tests, raises, logging
+    # nothing else happens in the helper: tests, raises, logging, locals read from the solver's state
     for st in g.node.body:
         if isinstance(st, ast.Expr) and isinstance(st.value, ast.Constant):
+            continue
+        if isinstance(st, ast.Assign) and all(isinstance(t, ast.Name) for t in st.targets) and \
+                not any(isinstance(x, (ast.Call, ast.Lambda, ast.NamedExpr, ast.Await)) for x in ast.walk(st.value)):
             continue
         if isinstance(st, ast.If) or _is_log(st) or (isinstance(st, ast.Return) and st.value is None):
             if isinstance(st, ast.If) and not all(isinstance(b, ast.Raise) or _is_log(b) for b in st.body + st.orelse):
